@@ -31,6 +31,9 @@ type wField struct {
 	OneofIndex     *int   `json:"oneofIndex"`
 	Proto3Optional bool   `json:"proto3Optional"`
 	Extendee       string `json:"extendee"`
+	// P3Explicit: the descriptor spells `proto3_optional: false` out (valid; same meaning as absent).
+	// Harness-only: the Lean world ignores it.
+	P3Explicit bool `json:"p3explicit,omitempty"`
 }
 type wMethod struct {
 	Name   string `json:"name"`
@@ -77,7 +80,7 @@ type wWorld struct {
 	Files   []wFile  `json:"files"`
 	Targets []string `json:"targets"`
 	Bidi    bool     `json:"bidi"`
-	FDSet   bool     `json:"fdset"` // entry point ProcessFileDescriptorSet* (harness only; targets are then empty)
+	FDSet   bool     `json:"fdset"`   // entry point ProcessFileDescriptorSet* (harness only; targets are then empty)
 	Probes  []string `json:"probes"`  // C02: names to look up
 	Walks   []walkJ  `json:"walks"`   // C07: start nodes and visitor policies
 	Queries []queryJ `json:"queries"` // C05: dependency accessor calls, in order
@@ -130,6 +133,8 @@ func (b *built) field(f wField, r ref) *descriptor.FieldDescriptorProto {
 	}
 	if f.Proto3Optional {
 		fd.Proto3Optional = proto.Bool(true)
+	} else if f.P3Explicit {
+		fd.Proto3Optional = proto.Bool(false)
 	}
 	if f.Extendee != "" {
 		fd.Extendee = proto.String(f.Extendee)
@@ -269,15 +274,15 @@ type declEnum struct {
 }
 
 type worldGen struct {
-	r      *rand.Rand
-	n      int // name counter
-	extNum int
-	msgs   []declMsg
-	enums  []declEnum
-	used   map[string]bool
+	r       *rand.Rand
+	n       int // name counter
+	extNum  int
+	msgs    []declMsg
+	enums   []declEnum
+	used    map[string]bool
 	goNames bool
-	pooled bool // draw names from small pools, unique per scope only
-	long   bool // pad names so that qualified names reach 100-300 bytes
+	pooled  bool // draw names from small pools, unique per scope only
+	long    bool // pad names so that qualified names reach 100-300 bytes
 	// needZero: only enums whose first value is 0 may be picked (map values)
 	needZero bool
 }
@@ -293,7 +298,7 @@ var goNamePools = map[string][]string{
 		"sha256sum", "vector3d_point", "s3bucket", "ipv4_address", "x86", "a1b2c3", "utf8_2go",
 		"x0y", "x9y", "base10a", "n9", "a", "z", "a_z", "z_a", "zz_9aa", "_a0", "_9z", "az_za", "q7_z0a"},
 	"of": {"foo", "bar", "item", "kind", "reset", "get_foo", "foo_", "Foo", "baz", "string", "get_bar", "Item", "Kind", "textBlock", "TextBlock", "fooBar", "FooBar", "md5hash", "I", "x9z", "a0_z"},
-	"o": {"choice", "reset", "string", "which_one", "Choice", "_c", "c_", "get_foo", "descriptor", "z9a", "a_0z"},
+	"o":  {"choice", "reset", "string", "which_one", "Choice", "_c", "c_", "get_foo", "descriptor", "z9a", "a_0z"},
 	"mp": {"labels", "index", "foo_map", "Attrs", "reset"}, "x": {"tag", "ext_1", "_note"},
 	"S": {"Api", "admin_svc", "_Svc", "svc2", "s3api", "z9a_svc"}, "Rpc": {"Get", "put_it", "_list", "List2", "get2nd", "a0z", "z_9a"},
 }
@@ -471,7 +476,7 @@ func genWorld(r *rand.Rand, o genOpts) wWorld {
 			}
 			pool := []string{"example.com/gen/alpha", "example.com/gen/beta;betapkg", "example.com/x/go-pkg", "example.com/x/v1.2", "example.com/x/type",
 				"example.com/x/9lives", "bare" + strings.ReplaceAll(dir, ".", "root"), "example.com/gen/alpha", "example.com/y/func;select", "example.com/y/Mixed_Case",
-				"example.com/z/a.b-c;d-e.f", "only/one", "example.com/a/types", "example.com/b/types", "example.com/a/types", "example.com/b/types"}
+				"example.com/z/a.b-c;d-e.f", "only/one", "example.com/q/my--pkg", "example.com/q/v1.-beta;snake__case", "example.com/q/a.-_b", "example.com/a/types", "example.com/b/types", "example.com/a/types", "example.com/b/types"}
 			fp.GoPackage = pool[r.Intn(len(pool))]
 		}
 		if o.locs {
@@ -609,8 +614,16 @@ func (wg *worldGen) fillMsg(m *wMsg, scope string, fi int, proto3 bool, vis map[
 		if proto3 && f.Label == 1 && wg.r.Intn(4) == 0 {
 			f.Proto3Optional = true
 			synthetic = append(synthetic, len(m.Head.Fields))
+		} else if wg.r.Intn(6) == 0 {
+			f.P3Explicit = true
 		}
 		addField(f)
+		if f.Proto3Optional && o.goNames && wg.r.Intn(3) == 0 && !wg.used[fqn+"\x00x_"+f.Name] {
+			// the synthetic oneof `_name` becomes Go `XName`: a sibling `x_name` must be renamed around it
+			wg.used[fqn+"\x00x_"+f.Name] = true
+			sib := wField{Name: "x_" + f.Name, Number: next(), Label: 1, Type: 5}
+			addField(sib)
+		}
 	}
 	mapField := func() {
 		f := wField{Name: wg.fresh("mp", fqn), Number: next(), Label: 3, Type: tMessage}
@@ -645,6 +658,7 @@ func (wg *worldGen) fillMsg(m *wMsg, scope string, fi int, proto3 bool, vis map[
 		idx := oi
 		for k := 1 + wg.r.Intn(3); k > 0; k-- {
 			f := wField{Name: wg.fresh("of", fqn), Number: next(), Label: 1, OneofIndex: &idx}
+			f.P3Explicit = wg.r.Intn(3) == 0
 			wg.typed(&f, fi, vis, proto3)
 			addField(f)
 		}
